@@ -1,4 +1,5 @@
 """C18 — conversion reads nothing outside the given file except linked images."""
+import common
 import io
 import os
 import random
@@ -121,7 +122,7 @@ def run(out, tier, seed, model_ok):
             mammoth.convert_to_html(f0)
     except Exception:
         pass
-    n = 400 if tier == "quick" else 4000
+    n = common.deepen(400 if tier == "quick" else 4000)
     lines, meta = [], []
     for i in range(n):
         linked = i % 2 == 0
